@@ -126,6 +126,8 @@ type RPC struct {
 	DynC      bool     `json:"dyn_client,omitempty"` // the client uses dynamic messages (what it sends and what it receives into)
 	DynH      bool     `json:"dyn_handler,omitempty"` // the handler uses dynamic messages
 	ReqSpec   *MsgSpec `json:"req_spec,omitempty"`   // message encoded in a raw request body
+	Stub      bool     `json:"stub,omitempty"`       // server-stream call made the way generated stubs make it: an error from the initial SendMsg/CloseSend is the outcome of the call and the stream is abandoned
+	Cause     bool     `json:"cause,omitempty"`      // the caller's context is cancelled / times out with a cause (context.WithCancelCause, WithDeadlineCause)
 }
 
 type CredSpec struct {
@@ -399,7 +401,7 @@ func (e okCodedError) Error() string              { return "ok-coded error: " + 
 func (e okCodedError) GRPCStatus() *status.Status { return e.st }
 
 var statusMsgs = []string{
-	"", "plain", "with: colon % and %41", "ünïcödé ☃", "line1\r\nline2", "  blanks  ", "bad\xffutf8\xfe", "tab\there",
+	"", "plain", "with: colon % and %41", "ünïcödé ☃", "line1\r\nline2", "  blanks  ", "bad\xffutf8\xfe", "tab\there", "ctl\x00and\x1band\x7fchars",
 }
 
 func (s *StatusSpec) detailsProto() []*anypb.Any {
